@@ -173,6 +173,37 @@ def load(config, root=None):
     return d
 
 
+def fixture_facts(name="positive"):
+    """facts of the matcher-control crate fixtures/<name> (cached on its source hash + driver)"""
+    src = os.path.join(VERIF, "fixtures", name)
+    h = hashlib.sha256()
+    for f in ("Cargo.toml", os.path.join("src", "lib.rs")):
+        with open(os.path.join(src, f), "rb") as fh:
+            h.update(fh.read())
+    with open(os.path.join(VERIF, "driver", "src", "main.rs"), "rb") as fh:
+        h.update(fh.read())
+    key = h.hexdigest()[:20]
+    outdir = os.path.join(CACHE, "fixture-facts", name + "-" + key)
+    fact = os.path.join(outdir, name + ".facts.json")
+    if not os.path.exists(fact):
+        ensure_driver()
+        os.makedirs(outdir, exist_ok=True)
+        with open(os.path.join(CACHE, "lock-fixture"), "w") as lk:
+            fcntl.flock(lk, fcntl.LOCK_EX)
+            if not os.path.exists(fact):
+                target = os.path.join(CACHE, "target", "fixture-" + name)
+                shutil.rmtree(os.path.join(target, "debug", ".fingerprint"), ignore_errors=True)
+                env = dict(os.environ)
+                env.update({"CARGO_NET_OFFLINE": "true", "LD_LIBRARY_PATH": sysroot_lib() + ":" + os.environ.get("LD_LIBRARY_PATH", ""),
+                            "RUSTFLAGS": "-Zmir-opt-level=0 -Awarnings", "RUSTC_WORKSPACE_WRAPPER": DRIVER, "CARGO_TARGET_DIR": target,
+                            "FACTS_OUT": outdir, "FACTS_CRATES": name, "FACTS_CONFIG": "fixture", "FACTS_TREE": key})
+                r = subprocess.run(["cargo", "+nightly", "check", "--offline", "--lib"], cwd=src, env=env, capture_output=True, text=True)
+                if r.returncode != 0 or not os.path.exists(fact):
+                    raise InfraError("fixture crate %s could not be analysed:\n%s" % (name, r.stderr[-3000:]))
+    with open(fact) as fh:
+        return json.load(fh)
+
+
 if __name__ == "__main__":
     for c in sys.argv[1:] or ["A"]:
         t = time.time()
